@@ -45,7 +45,12 @@ def cases(spec, ctx):
             space.update({"lossy_bytes": "huge", "lossless": "no", "maxw": 8, "maxh": 8})
         elif k < 0.3:
             space["depth0"] = True
-        yield {"recipe": configs.random_recipe(ctx.rng, space)}
+        r = configs.random_recipe(ctx.rng, space)
+        yield {"recipe": r}
+        if ctx.rng.random() < 0.25 and not r.get("expect_rejection"):
+            # siblings run right after their original in the same process (state kept under too coarse a key shows here)
+            for _ in range(ctx.rng.choice([1, 2])):
+                yield {"recipe": configs.sibling(ctx.rng, r)}
 
 
 def expected_numbers(recipe):
@@ -137,6 +142,9 @@ def run_case(case, ctx):
     ctx.seen(jsonx.key_hash(recipe), nontrivial=judged)
     if judged:
         ctx.count("stratum:" + configs.stratum(recipe))
+        if recipe.get("sibling_of"):
+            ctx.count("siblings_judged")
+            ctx.note("sibling_attributes", recipe["sibling_of"])
         ctx.note("wavelet_pairs", "%d/%d" % (recipe["wi"], recipe["wih"]))
         ctx.note("bases", recipe["base"])
         if ctx.rng.random() < 0.002:
